@@ -26,7 +26,8 @@ def site_lines():
 
 
 SCENARIOS = ['main-edit-with-dir-override', 'dir-edit', 'permissive-default-rule', 'deprecated-defaults',
-             'dir-edit-no-overwrite', 'deprecated-main-emptied', 'deprecated-dir-override-edit', 'two-dirs-later-edit']
+             'dir-edit-no-overwrite', 'deprecated-main-emptied', 'deprecated-dir-override-edit', 'two-dirs-later-edit',
+             'main-edit-referring-default']
 
 
 def _rm_root(root):
@@ -52,6 +53,15 @@ def build(scn, root):
 
         def change():
             fs.write_main({'p': 'role:main_new', 'q': 'role:main_q'}, 'json')
+    elif scn == 'main-edit-referring-default':
+        # a registered default REFERS to a rule the policy file defines and a directory file overrides (the default's
+        # check objects outlive every reload); another rule of the policy file is edited
+        defaults = [('reg:a', 'rule:p or role:dflt_a', None, None), ('reg:b', 'not rule:p', None, None)]
+        fs.write_main({'p': 'role:main', 'q': 'role:main_old'}, 'json')
+        fs.write('policy.d', 'o.yaml', {'p': 'role:dir'}, 'json')
+
+        def change():
+            fs.write_main({'p': 'role:main', 'q': 'role:main_new'}, 'json')
     elif scn == 'dir-edit':
         fs.write_main({'p': 'role:main', 'q': 'role:main_q'}, 'json')
         fs.write('policy.d', 'o.yaml', {'p': 'role:dir_old'}, 'json')
